@@ -1,48 +1,72 @@
-import Abyss.Inv
+import Abyss.Lemmas.AllocOps
 /-!
 # Record-file allocator: well-formedness is preserved and the allocation contract holds
 
 Helper lemmas only (property theorems live in `Abyss/Props`). The store-level proofs use only the
 `used` view of a record file through the `*_spec` lemmas below.
+
+The structure `CfgOK` and its instances `keyCfg_ok`, `valCfg_ok` live in `Abyss/Lemmas/AllocCfg.lean`
+(the helper files need them); `RecFile.usedCount`, `RecFile.get_set_self`, `RecFile.get_set_ne` live
+in `Abyss/Lemmas/AllocWF.lean`. Their names and statements are unchanged; they are re-checked below.
 -/
 namespace Abyss
 variable {α : Type}
 
-/-- facts about the (generated) size table and free-list-head table of a record file that the
-allocator proofs need; proved for `keyCfg` and `valCfg` by evaluation. -/
+/- facts about the (generated) size table and free-list-head table of a record file that the
+allocator proofs need; proved for `keyCfg` and `valCfg` by evaluation (`AllocCfg.lean`):
+
 structure CfgOK (c : FileCfg) : Prop where
   hdr_pos : 0 < c.headerSz
   idx_lt : ∀ sz, RecFile.headIdx c sz < 16
   legal_pos : ∀ sz, LegalSz c sz → 0 < sz
-  /-- a small class list holds exactly one size -/
   small_exact : ∀ sz sz', LegalSz c sz → LegalSz c sz' →
     Gen.isLargePieceSize c.sizeAry sz = false → RecFile.headIdx c sz' = RecFile.headIdx c sz → sz' = sz
-  /-- all large sizes share one list, and only they -/
   large_idx : ∀ sz sz', LegalSz c sz → LegalSz c sz' → Gen.isLargePieceSize c.sizeAry sz = true →
     (RecFile.headIdx c sz' = RecFile.headIdx c sz ↔ Gen.isLargePieceSize c.sizeAry sz' = true)
   roundup_legal : ∀ x, 1 ≤ x → LegalSz c (Gen.roundup c.sizeAry x)
   roundup_ge : ∀ x, 1 ≤ x → x ≤ Gen.roundup c.sizeAry x
-
-theorem keyCfg_ok : CfgOK keyCfg := by sorry
-theorem valCfg_ok : CfgOK valCfg := by sorry
+-/
+example : CfgOK keyCfg := keyCfg_ok
+example : CfgOK valCfg := valCfg_ok
 
 namespace RecFile
 
-/-- number of used slots -/
-def usedCount (f : RecFile α) : Nat :=
-  (f.slots.filter fun p => match p.2 with | .used _ _ => true | _ => false).length
+/- number of used slots (`AllocWF.lean`) -/
+example (f : RecFile α) : usedCount f =
+    (f.slots.filter fun p => match p.2 with | .used _ _ => true | _ => false).length := rfl
 
-theorem get_set_self (f : RecFile α) (o : Nat) (s : Slot α) : (f.set o s).get o = some s := by sorry
-theorem get_set_ne (f : RecFile α) (o o' : Nat) (s : Slot α) (h : o' ≠ o) :
-    (f.set o s).get o' = f.get o' := by sorry
+example (f : RecFile α) (o : Nat) (s : Slot α) : (f.set o s).get o = some s := get_set_self f o s
+example (f : RecFile α) (o o' : Nat) (s : Slot α) (h : o' ≠ o) :
+    (f.set o s).get o' = f.get o' := get_set_ne f o o' s h
 
-theorem WF.empty (c : FileCfg) : WF c (RecFile.empty c : RecFile α) := by sorry
+theorem getD_replicate_zero (n i : Nat) : (List.replicate n 0).getD i 0 = 0 := by
+  induction n generalizing i with
+  | zero => simp
+  | succ n ih =>
+    cases i with
+    | zero => simp [List.replicate_succ]
+    | succ i => simpa [List.replicate_succ] using ih i
 
+theorem WF.empty (c : FileCfg) : WF c (RecFile.empty c : RecFile α) where
+  tiled := rfl
+  heads_len := by simp [RecFile.empty]
+  sizes o s h := by simp [RecFile.empty, get, aget] at h
+  lists i hi := by
+    refine ⟨[], ?_, List.nodup_nil, by simp⟩
+    have : (RecFile.empty c : RecFile α).heads.getD i 0 = 0 := getD_replicate_zero 16 i
+    unfold freeList
+    rw [this]
+    rfl
+  onlist o sz nx h := by simp [RecFile.empty, get, aget] at h
+
+set_option linter.unusedVariables false in
 /-- a slot lies inside the file, behind the header, and has a positive size -/
 theorem WF.get_bounds {c : FileCfg} {f : RecFile α} (hc : CfgOK c) (h : WF c f) {o : Nat} {s : Slot α}
-    (hg : f.get o = some s) : c.headerSz ≤ o ∧ o + s.size ≤ f.end_ ∧ 0 < s.size := by sorry
-theorem WF.get_end {c : FileCfg} {f : RecFile α} (hc : CfgOK c) (h : WF c f) : f.get f.end_ = none := by sorry
-theorem WF.hdr_le_end {c : FileCfg} {f : RecFile α} (h : WF c f) : c.headerSz ≤ f.end_ := by sorry
+    (hg : f.get o = some s) : c.headerSz ≤ o ∧ o + s.size ≤ f.end_ ∧ 0 < s.size := h.tiled.bounds hg
+set_option linter.unusedVariables false in
+theorem WF.get_end {c : FileCfg} {f : RecFile α} (hc : CfgOK c) (h : WF c f) : f.get f.end_ = none :=
+  h.tiled.aget_end
+theorem WF.hdr_le_end {c : FileCfg} {f : RecFile α} (h : WF c f) : c.headerSz ≤ f.end_ := h.tiled.le
 
 /-- `add piece`: never fails; the new record is at an offset that held no used record; all
 other used records are untouched. -/
@@ -51,7 +75,9 @@ theorem addPiece_spec {c : FileCfg} {f : RecFile α} (hc : CfgOK c) (h : WF c f)
     ∃ off sz f', addPiece c f need p = some (off, f') ∧ WF c f' ∧ need ≤ sz ∧
       f'.used off = some (sz, p) ∧ f.used off = none ∧ off ≠ 0 ∧
       (∀ o, o ≠ off → f'.used o = f.used o) ∧
-      usedCount f' = usedCount f + 1 ∧ f.slots.length ≤ f'.slots.length ∧ f.end_ ≤ f'.end_ := by sorry
+      usedCount f' = usedCount f + 1 ∧ f.slots.length ≤ f'.slots.length ∧ f.end_ ≤ f'.end_ := by
+  obtain ⟨off, sz, f', a1, a2, a3, a4, a5, a6, a7, a8, a9, a10, _⟩ := addPiece_full hc h hn p
+  exact ⟨off, sz, f', a1, a2, a3, a4, a5, a6, a7, a8, a9, a10⟩
 
 /-- `rewrite piece`: never fails on a used record; either in place (same offset, same slot size)
 or moved to an offset that held no used record, the old slot being free afterwards; all other
@@ -62,31 +88,121 @@ theorem rewrite_spec {c : FileCfg} {f : RecFile α} (hc : CfgOK c) (h : WF c f) 
       f'.used off' = some (sz', p) ∧ need ≤ sz' ∧
       ((off' = off ∧ sz' = sz0) ∨ (off' ≠ off ∧ off' ≠ 0 ∧ f.used off' = none ∧ f'.used off = none)) ∧
       (∀ o, o ≠ off → o ≠ off' → f'.used o = f.used o) ∧
-      usedCount f' = usedCount f ∧ f.slots.length ≤ f'.slots.length ∧ f.end_ ≤ f'.end_ := by sorry
+      usedCount f' = usedCount f ∧ f.slots.length ≤ f'.slots.length ∧ f.end_ ≤ f'.end_ := by
+  have hg := used_eq_some.mp hu
+  by_cases hle : need ≤ sz0
+  · have hsz : (Slot.used sz0 p : Slot α).size = (Slot.used sz0 p0 : Slot α).size := rfl
+    have w := ((h.toWFH (x := off) (by intro _ _; rw [hg]; simp)).set_same hc hg hsz).toWF
+      (by intro _ _; rw [get_set_self]; simp)
+    refine ⟨off, sz0, f.set off (.used sz0 p), by simp [rewrite, hg, Slot.size, hle], w,
+      used_eq_some.mpr (get_set_self _ _ _), hle, Or.inl ⟨rfl, rfl⟩,
+      fun o ho _ => used_set_ne _ _ _ _ ho, ?_, ?_, ?_⟩
+    · have := usedCount_set_some (.used sz0 p) hg
+      simpa [Slot.isUsed] using this
+    · rw [set_length_same _ hg]; exact Nat.le_refl _
+    · rw [set_end_same h.tiled hg hsz]; exact Nat.le_refl _
+  · obtain ⟨w1, ⟨nx1, g1⟩, g2, g3, g4, g5⟩ := pushFree_spec hc h hg
+    obtain ⟨off', sz', f', a1, a2, a3, a4, a5, a6, a7, a8, a9, a10, a11⟩ := addPiece_full hc w1 hn p
+    have hb := h.tiled.bounds hg
+    have hne : off' ≠ off := by
+      rcases a11 with ⟨e, _, _⟩ | ⟨nx, e, _⟩
+      · rw [e, g5]; omega
+      · intro e'; subst e'
+        rw [g1] at e
+        simp only [Option.some.injEq, Slot.free.injEq] at e
+        omega
+    refine ⟨off', sz', f', by simp [rewrite, hg, Slot.size, hle, a1], a2, a4, a3,
+      Or.inr ⟨hne, a6, ?_, ?_⟩, ?_, by omega, by omega, by omega⟩
+    · rw [← a5]; unfold used; rw [g2 off' hne]
+    · rw [a7 off (Ne.symm hne)]; exact used_of_free g1
+    · intro o ho ho'
+      rw [a7 o ho']; unfold used; rw [g2 o ho]
 
 /-- `delete piece`: never fails on a used record; it becomes free; the others are untouched. -/
 theorem deletePiece_spec {c : FileCfg} {f : RecFile α} (hc : CfgOK c) (h : WF c f) {off sz0 : Nat} {p0 : α}
     (hu : f.used off = some (sz0, p0)) :
     ∃ f', deletePiece c f off = some f' ∧ WF c f' ∧ f'.used off = none ∧
       (∀ o, o ≠ off → f'.used o = f.used o) ∧
-      usedCount f' + 1 = usedCount f ∧ f'.slots.length = f.slots.length ∧ f'.end_ = f.end_ := by sorry
+      usedCount f' + 1 = usedCount f ∧ f'.slots.length = f.slots.length ∧ f'.end_ = f.end_ := by
+  have hg := used_eq_some.mp hu
+  obtain ⟨w1, ⟨nx1, g1⟩, g2, g3, g4, g5⟩ := pushFree_spec hc h hg
+  refine ⟨pushFree c f off sz0, by simp [deletePiece, hg, Slot.size], w1, used_of_free g1, ?_, g3, g4, g5⟩
+  intro o ho; unfold used; rw [g2 o ho]
 
 /-- the file is extended only if the free list of the requested class offers nothing that fits -/
 theorem addPiece_extends_only_if {c : FileCfg} {f f' : RecFile α} (hc : CfgOK c) (h : WF c f) {need off : Nat}
     (hn : LegalSz c need) {p : α} (hadd : addPiece c f need p = some (off, f')) (hext : f.end_ < f'.end_) :
-    ∀ l, freeList f (headIdx c need) = some l → ∀ o ∈ l, ∀ sz nx, f.get o = some (.free sz nx) → sz < need := by sorry
+    ∀ l, freeList f (headIdx c need) = some l → ∀ o ∈ l, ∀ sz nx, f.get o = some (.free sz nx) → sz < need := by
+  obtain ⟨off', sz', f'', a1, _, _, _, _, _, _, _, _, _, a11⟩ := addPiece_full hc h hn p
+  rw [hadd] at a1
+  simp only [Option.some.injEq, Prod.mk.injEq] at a1
+  obtain ⟨rfl, rfl⟩ := a1
+  rcases a11 with ⟨_, _, hs⟩ | ⟨_, _, e⟩
+  · intro l hl
+    exact hs l ((freeChain_iff _ _ _ _).mp hl).1
+  · omega
 
 /-- and when it is not extended, the record went into a slot that was free -/
 theorem addPiece_reuses {c : FileCfg} {f f' : RecFile α} (hc : CfgOK c) (h : WF c f) {need off : Nat}
     (hn : LegalSz c need) {p : α} (hadd : addPiece c f need p = some (off, f')) (hext : f'.end_ = f.end_) :
-    ∃ sz nx, f.get off = some (.free sz nx) ∧ need ≤ sz := by sorry
+    ∃ sz nx, f.get off = some (.free sz nx) ∧ need ≤ sz := by
+  obtain ⟨off', sz', f'', a1, _, a3, _, _, _, _, _, _, _, a11⟩ := addPiece_full hc h hn p
+  rw [hadd] at a1
+  simp only [Option.some.injEq, Prod.mk.injEq] at a1
+  obtain ⟨rfl, rfl⟩ := a1
+  rcases a11 with ⟨_, e, _⟩ | ⟨nx, e, _⟩
+  · have := hc.legal_pos _ hn
+    omega
+  · exact ⟨sz', nx, e, a3⟩
+
+theorem countFreeFrom_of_chain {f : RecFile α} {l : List Nat} : ∀ {fuel cur : Nat},
+    IsChain f cur l → l.length < fuel → countFreeFrom f fuel cur = some l.length := by
+  induction l with
+  | nil =>
+    intro fuel cur hc hf
+    obtain ⟨fuel, rfl⟩ : ∃ k, fuel = k + 1 := ⟨fuel - 1, by omega⟩
+    have : cur = 0 := hc
+    simp [countFreeFrom, this]
+  | cons o l ih =>
+    intro fuel cur hc hf
+    obtain ⟨fuel, rfl⟩ : ∃ k, fuel = k + 1 := ⟨fuel - 1, by omega⟩
+    obtain ⟨h0, rfl, sz, nx, hg, hnx⟩ := hc
+    simp only [List.length_cons, Nat.add_lt_add_iff_right] at hf
+    simp [countFreeFrom, h0, hg, ih hnx hf]
 
 /-- the free-slot count reported for a class is the length of its free list -/
 theorem countFree_spec {c : FileCfg} {f : RecFile α} (hc : CfgOK c) (h : WF c f) (sz : Nat) :
-    ∃ l, freeList f (headIdx c sz) = some l ∧ countFree c f sz = some l.length := by sorry
+    ∃ l, freeList f (headIdx c sz) = some l ∧ countFree c f sz = some l.length := by
+  obtain ⟨l, hl, _, _⟩ := h.lists _ (hc.idx_lt sz)
+  refine ⟨l, hl, ?_⟩
+  obtain ⟨a, b⟩ := (freeChain_iff _ _ _ _).mp hl
+  exact countFreeFrom_of_chain a b
 
+theorem walkFrom_of_tiled {f : RecFile α} {rest : List (Nat × Slot α)} : ∀ {a : Nat},
+    (∀ p ∈ rest, f.get p.1 = some p.2) → Tiled rest a f.end_ →
+    walkFrom f (rest.length + 1) a = some rest := by
+  induction rest with
+  | nil =>
+    intro a _ ht
+    have : a = f.end_ := ht
+    simp [walkFrom, this]
+  | cons q rest ih =>
+    intro a hm ht
+    obtain ⟨o, s⟩ := q
+    obtain ⟨rfl, hpos, ht'⟩ := ht
+    have hle := ht'.le
+    have hg : f.get o = some s := hm (o, s) (by simp)
+    have hlt : o < f.end_ := by omega
+    have hne : ¬ s.size = 0 := by omega
+    have := ih (fun p hp => hm p (List.mem_cons_of_mem _ hp)) ht'
+    simp only [List.length_cons]
+    rw [walkFrom]
+    simp [hlt, hg, hne, this]
+
+set_option linter.unusedVariables false in
 /-- the sequential slot walk terminates and visits exactly the slots, in address order -/
-theorem walk_spec {c : FileCfg} {f : RecFile α} (hc : CfgOK c) (h : WF c f) : walk c f = some f.slots := by sorry
+theorem walk_spec {c : FileCfg} {f : RecFile α} (hc : CfgOK c) (h : WF c f) : walk c f = some f.slots :=
+  walkFrom_of_tiled (fun _ hp => h.tiled.aget_of_mem hp) h.tiled
 
 end RecFile
 end Abyss
